@@ -20,7 +20,8 @@ def run(ctx):
                 ('v2 match', pc.mc_cfg('pit-A-match-v2', 'v2', ctx.pick(2, 3), 2, 'match', 'v2one')),
                 ('legacy small + liveness', pc.mc_cfg('pit-A-live-legacy', 'legacy', 2, 2, 'small', 'legacy', live=True)),
                 ('v2 deferred await', pc.mc_cfg('pit-A-defer-v2', 'v2', 2, ctx.pick(2, 3), 'timing', 'v2two', defer='Def_both')),
-                ('legacy deferred await', pc.mc_cfg('pit-A-defer-legacy', 'legacy', 2, ctx.pick(2, 3), 'timing', 'legacy', defer='Def_both'))]
+                ('legacy deferred await', pc.mc_cfg('pit-A-defer-legacy', 'legacy', 2, ctx.pick(2, 3), 'timing', 'legacy', defer='Def_both')),
+                ('v2 cancellation in flight', pc.mc_cfg('pit-A-race-v2', 'v2', 2, 2, 'small', 'v2two', races='Race_one'))]
         if not ctx.quick:
             cfgs += [('legacy timing 3 entries', pc.mc_cfg('pit-A-timing-legacy', 'legacy', 3, 3, 'timing', 'legacy')),
                      ('v2 digest', pc.mc_cfg('pit-A-dig-v2', 'v2', 3, 2, 'dig', 'v2two')),
@@ -35,9 +36,14 @@ def run(ctx):
         for front, V in (('v2', 'v2two'), ('legacy', 'legacy')):
             cfgp = pc.mc_cfg('pit-B-defer-' + front, front, 2, ctx.pick(1, 2), 'timing', V, defer='Def_both', invs=[], props=[])
             pc.stage_b(ctx, front, cfgp, 'deferred await 2 entries', devs=DEVS[front], report_devs=False, max_paths=ctx.pick(500, 12000))
+        # a packet processed while a cancellation is in flight (requested, clean-up not yet run)
+        for front, V in (('v2', 'v2two'), ('legacy', 'legacy')):
+            cfgp = pc.mc_cfg('pit-B-race-' + front, front, 2, 1, 'timing', V, races='Race_one', invs=[], props=[])
+            pc.stage_b(ctx, front, cfgp, 'cancellation in flight 2 entries', devs=DEVS[front], report_devs=False,
+                       max_paths=ctx.pick(400, 8000))
         # behaviours sampled from a 3-entry configuration with every dimension open (too large for a cover)
         for front, V, vmap in (('v2', 'v2two', None), ('legacy', 'legacy', None)):
-            cfgp = pc.mc_cfg('pit-S-' + front, front, 3, 3, 'match', V, R='R_two', E='E_all', defer='Def_both', invs=[], props=[])
+            cfgp = pc.mc_cfg('pit-S-' + front, front, 3, 3, 'match', V, R='R_two', E='E_all', defer='Def_both', races='Race_one', invs=[], props=[])
             pc.stage_b_sim(ctx, front, cfgp, '3 entries match/envelopes/defer', ctx.pick(300, 6000), 16, devs=DEVS[front], report_devs=False)
     if 'C' in ctx.stages:
         for front in ('v2', 'legacy'):
